@@ -362,7 +362,7 @@ theorem C05_iterate_forward (d : Db) (id : Nat) (t : TxnM) (o : IterOpts) (seek 
       some (validPrefix o (specScanFwd (mergeAll (pendingSource t :: d.lsm.sources)) t.readTs o.sinceTs
         d.now o.prefix_ (seekKeyOf o seek))) := by
   have hs : SortedEnts (mergeAll (pendingSource t :: d.lsm.sources)) :=
-    (C04_iter_pending_first d t · hsrc) |> fun _ => mergeAll_sorted (by
+    mergeAll_sorted (by
       intro s hs'
       rcases List.mem_cons.mp hs' with rfl | hs'
       · exact pendingSource_sorted t
